@@ -4,8 +4,8 @@ import json, os, shutil, sys
 tab = json.load(open(sys.argv[1]))
 for sid, m in tab.items():
     P = sid[:3]
-    rnd = 2 if sid[3] in "cd" else (3 if sid[3] in "efg" else 4)
-    x = {"c": "a", "d": "b", "e": "a", "f": "b", "g": "c", "h": "a", "i": "b", "j": "c"}[sid[3]]
+    rnd = 2 if sid[3] in "cd" else (3 if sid[3] in "efg" else (4 if sid[3] in "hij" else 5))
+    x = {"c": "a", "d": "b", "e": "a", "f": "b", "g": "c", "h": "a", "i": "b", "j": "c", "k": "a", "l": "b"}[sid[3]]
     src = f"/tmp/seed{rnd}/{P}/seeded_out/{x}"
     dst = f"/verif/seeded/{sid}"
     os.makedirs(dst, exist_ok=True)
